@@ -48,11 +48,27 @@ class World:
 
 def step(w, ri, tg):
     rng = w.rng
-    kind = rng.choice(["create", "create", "copy", "json", "xml", "attach", "remove", "replace", "replace_keep", "prune", "expand", "delete", "delete_nochildren"])
+    kind = rng.choice(["create", "create_id", "create_setter", "copy", "json", "xml", "attach", "remove", "replace", "replace_keep", "prune", "expand", "delete", "delete_nochildren"])
     nodes = w.all_nodes()
     if kind == "create":
         n = Node(rng.choice(["title", "para", "zz"]), content=rng.choice([None, "x"]))
         w.add_tree(n)
+    elif kind == "create_id":
+        # caller-supplied ids are arbitrary strings (upper case, non-ASCII, UUIDs minted elsewhere); unique within the history
+        w.serial = getattr(w, "serial", 0) + 1
+        n = Node(rng.choice(["title", "para"]), id=rng.choice(["DS-", "Ünï-", "A1B2C3D4-E5F6-11EE-", "x y/"]) + str(w.serial))
+        w.add_tree(n)
+    elif kind == "create_setter":
+        # a subtree assembled through the public `children` setter / list append: the children's parent links are not written
+        top = Node(rng.choice(["dataset", "zz"]))
+        kids = [Node("title", content="t"), Node("creator")]
+        kids[1].add_child(Node("individualName"))
+        if rng.random() < 0.5:
+            top.children = kids
+        else:
+            for k in kids:
+                top.children.append(k)
+        w.add_tree(top)
     elif kind == "copy" and nodes:
         src = rng.choice(nodes)
         w.add_tree(src.copy())
@@ -209,7 +225,7 @@ def run(ctx):
             if m == "exception" or {k: v for k, v in m} != store:
                 diffs.append({"case": {"history": hist}, "impl": sorted(store)[:5], "model": m if m == "exception" else sorted(k for k, _ in m)[:5]})
     return {"evaluations": total, "distinct_nontrivial": H,
-            "rule": "random histories of 40 operations (create, copy, from_json, from_xml, attach, remove_child, replace_child with and without deletion, prune of a mutated EML tree, "
+            "rule": "random histories of 40 operations (create - also with caller-supplied ids and with subtrees assembled through the children setter -, copy, from_json, from_xml, attach, remove_child, replace_child with and without deletion, prune of a mutated EML tree, "
                     "reference expansion, delete with and without children); after every operation Node.store is compared with the live set; distinct = histories; all non-trivial",
             "samples": samples, "corr_diffs": diffs, "oracle_fails": fails, "distribution": {"ops": kinds}}
 
